@@ -4,6 +4,7 @@ import ast, re, struct
 from .core import ( rule, Result, AnalysisError, dotted, call_name, is_call_to, names_in, attrs_in, walk_no_nested,
                     norm_text, dotted_in, stmt_of, pmatch, pfind, txt )
 from .core import Matcher
+from .cfg import CFG
 from .fold import fold, try_fold, NoFold
 from . import spec
 from .grammar import grammar_of, Node, Decide, Closure, ClassRef, Unknown
@@ -564,6 +565,34 @@ def d_resolve( ctx ):
         res.bad( src, jn[0], jn[0], "the '..' re-join differs from trunc [.] back on %d of %d cells, e.g. trunc=%r back=%r gives %r instead of %r (a trailing '..' no longer addresses the parent level)" % ( wrong, cells, t, b, got, want ))
     else:
         res.ok( src, jn[0], "re-join = trunc + ( '.' iff both non-empty ) + back on all %d cells" % cells )
+    # a first segment that was split inside an index expression ( 'a[b.c].d' -> 'a[b' ) is extended until its brackets BALANCE: the
+    # continuation test is evaluated on sample segments (any equivalent way of counting passes; "ends with ]" does not: nested indexes)
+    bal = [ w for w in ast.walk( fn ) if isinstance( w, ast.While ) and w is not lp and MINE in names_in( w.test )
+            and any( isinstance( x, ast.AugAssign ) and dotted( x.target ) == MINE for x in w.body ) ]
+    if not bal:
+        res.bad( src, fn, '_resolve: bracket re-joining', "a segment cut inside an index expression must be extended to the matching ']'" )
+    else:
+        env0 = {}
+        for a_ in ast.walk( fn ):
+            if isinstance( a_, ast.Assign ) and isinstance( a_.targets[0], ast.Name ) and isinstance( a_.value, ast.Dict ):
+                v_ = try_fold( a_.value, default=None )
+                if isinstance( v_, dict ):
+                    env0[a_.targets[0].id] = v_
+        samples = (( 'a[b', True ), ( 'a[b.c]', False ), ( 'a[b[c', True ), ( 'a[b[c]', True ), ( 'a[b[c].d]', False ), ( 'a[0]', False ))
+        wrong_ = []
+        for seg, want in samples:
+            try:
+                got = bool( fold( bal[0].test, dict( env0, **{ MINE: seg } )))
+            except NoFold as exc:
+                raise AnalysisError( '_resolve: bracket-balance test outside the modelled subset: %s' % exc )
+            res.cells += 1
+            if got != want:
+                wrong_.append(( seg, got ))
+        if wrong_:
+            res.bad( src, bal[0], bal[0].test, "the segment must be extended exactly while its '[' and ']' do not balance: for %r the test says %s (%d of %d samples differ) - a nested index like tbl[map[sel.row].col].val is cut at the inner ']'" % (
+                wrong_[0][0], 'continue' if wrong_[0][1] else 'stop', len( wrong_ ), len( samples )))
+        else:
+            res.ok( src, bal[0], "a cut index expression is extended exactly while its brackets are unbalanced (%d sample segments)" % len( samples ))
     return res
 
 
@@ -961,6 +990,47 @@ def t_tnet( ctx ):
                 res.ok( tsrc, proc, 'streaming tag %r accepted by TYPES' % bytes( [ h ] ))
             else:
                 res.bad( tsrc, proc, 'process handles %r' % bytes( [ h ] ), 'tag is not in tnet_parser.TYPES: DATA has no edge for it' )
+        # the incremental parser converts each payload exactly as tnetstrings.parse does for the same tag (same decoder kind; for text,
+        # the codec the batch parser uses by default) - the two implementations of one format must agree
+        pdef = dict( zip( [ a.arg for a in parse.args.args[len( parse.args.args ) - len( parse.args.defaults ):] ], parse.args.defaults ))
+        def canon_codec( v ):
+            v = try_fold( v ) if isinstance( v, ast.AST ) else v
+            return { 'utf-8': 'utf-8', 'utf8': 'utf-8', 'utf_8': 'utf-8', 'u8': 'utf-8', 'ascii': 'ascii', 'us-ascii': 'ascii', 'latin-1': 'latin-1', 'iso-8859-1': 'latin-1' }.get(
+                str( v ).lower(), str( v ).lower()) if isinstance( v, str ) else None
+        TN = Matcher()
+        tnfirst = [ a_ for a_ in proc.body if isinstance( a_, ast.Assign ) and is_call_to( a_.value, 'next' ) ]
+        TNT = dotted( tnfirst[0].targets[0] ) if tnfirst else 'tntype'
+        node = [ i_ for i_ in proc.body if isinstance( i_, ast.If ) and TNT in names_in( i_.test ) ]
+        node = node[0] if node else None
+        n_agree = 0
+        while isinstance( node, ast.If ):
+            tv = None
+            if isinstance( node.test, ast.Compare ) and len( node.test.ops ) == 1 and isinstance( node.test.ops[0], ast.Eq ):
+                for side in ( node.test.comparators[0], node.test.left ):
+                    v_ = try_fold( side )
+                    if isinstance( v_, int ):
+                        tv = bytes( [ v_ ] )
+            conv = [ a_.value for a_ in node.body if isinstance( a_, ast.Assign ) and isinstance( a_.targets[0], ast.Subscript ) and dotted( a_.targets[0].value ) == 'data' ]
+            if tv is not None and conv and tv in dec:
+                sk = dec_kind( conv[0] )
+                bk = dec_kind( dec[tv][0] )
+                same = sk[0] == bk[0]
+                if same and sk[0] == 'decode':
+                    # the batch parser's codec is its `encoding` parameter: compare with that parameter's default
+                    bcodec = canon_codec( pdef.get( bk[1] )) if bk[1] in pdef else canon_codec( ast.parse( bk[1], mode='eval' ).body )
+                    scodec = canon_codec( ast.parse( sk[1], mode='eval' ).body )
+                    same = bcodec is not None and bcodec == scodec
+                    detail = 'decode( %s ) vs default decode( %s )' % ( scodec, bcodec )
+                else:
+                    detail = '%s vs %s' % ( sk[0], bk[0] )
+                n_agree += 1
+                if same:
+                    res.ok( tsrc, node, 'streaming tag %r converts like tnetstrings.parse: %s' % ( tv, detail ))
+                else:
+                    res.bad( tsrc, node, 'streaming tag %r: %s' % ( tv, detail ), 'the incremental parser and tnetstrings.parse must yield the same value for the same bytes (e.g. a "-sig" codec silently drops a leading U+FEFF)' )
+            node = node.orelse[0] if len( node.orelse ) == 1 and isinstance( node.orelse[0], ast.If ) else None
+        if n_agree < 3:
+            raise AnalysisError( 'tnet_parser.process: per-tag conversions not recognised (%d)' % n_agree )
         g = grammar_of( ctx )
         m = g.machines.get( 'tnet_machine' )
         if m is None:
@@ -1280,11 +1350,7 @@ def t_record( ctx ):
         res.ok( src, cm, "comment lines start with '# '" )
     else:
         res.bad( src, cm, 'logger.comment', "comment lines must be written as '# ' + text + newline" )
-    skip = [ n for n in ast.walk( pr ) if isinstance( n, ast.If ) and pmatch( n.test, "not _l or _l.startswith( '#' )" ) ]
-    if skip and any( isinstance( b, ast.Continue ) for b in skip[0].body ):
-        res.ok( src, skip[0], "reader skips blank and '#' lines" )
-    else:
-        res.bad( src, pr, 'parse_record loop', "blank lines and lines starting with '#' must be skipped, not parsed and not terminating" )
+    # (how blank / comment lines are skipped, and that a skipped line never ends up as the record, is decided by H-PARSE)
     return res
 
 
@@ -1461,4 +1527,50 @@ def t_render( ctx ):
         res.ok( src, fr[0], 'datetime = fromtimestamp( n, tz=zone ): an instant has exactly one rendering per zone' )
     else:
         res.bad( src, fd, 'datetime_from_number', 'an instant must be converted with fromtimestamp( n, tz=zone )' )
+    return res
+
+
+@rule( 'T-CACHE', props=( 'C17', ), floor=5 )
+def t_cache( ctx ):
+    """timestamp caches its UTC rendering in _str: every store to <obj>.value outside __init__ is followed, on every normal path, by
+    <obj>._str = None (same object); __init__ clears the cache first and copies it only together with the value it belongs to"""
+    res = Result( 'T-CACHE' )
+    src = ctx.src( TIMES )
+    cd = src.get( 'timestamp' )
+    n = 0
+    for f in cd.body:
+        if not isinstance( f, ast.FunctionDef ):
+            continue
+        cfg = None
+        for s in walk_no_nested( f ):
+            tg = s.targets if isinstance( s, ast.Assign ) else [ s.target ] if isinstance( s, ast.AugAssign ) else []
+            for t in tg:
+                if not ( isinstance( t, ast.Attribute ) and t.attr == 'value' and isinstance( t.value, ast.Name )):
+                    continue
+                n += 1
+                X = t.value.id
+                cfg = cfg or CFG( f, may_raise=lambda n_: False )
+                vn = cfg.node_of( s )
+                clears = [ nd for nd in cfg.nodes if nd.kind == 'stmt' and pmatch( nd.stmt, '%s._str = None' % X ) is not None ]
+                if f.name == '__init__':
+                    dom = cfg.dominators()
+                    first = [ c for c in clears if cfg.dominates( c, vn, dom ) ]
+                    # a later copy of another object's cache is only allowed where the value is copied from that same object
+                    copies = [ nd for nd in cfg.nodes if nd.kind == 'stmt' and isinstance( nd.stmt, ast.Assign ) and dotted( nd.stmt.targets[0] ) == '%s._str' % X
+                               and not ( isinstance( nd.stmt.value, ast.Constant ) and nd.stmt.value.value is None ) ]
+                    okc = all( isinstance( c.stmt.value, ast.Attribute ) and c.stmt.value.attr == '_str' and any(
+                        isinstance( b, ast.Assign ) and dotted( b.targets[0] ) == '%s.value' % X and dotted( b.value ) == '%s.value' % dotted( c.stmt.value.value )
+                        for b in ( src.parent.get( c.stmt ).body if hasattr( src.parent.get( c.stmt ), 'body' ) else [] )) for c in copies )
+                    if first and okc:
+                        res.ok( src, s, '__init__: the cache is cleared before the value is set; it is copied only together with the value of the same source' )
+                    else:
+                        res.bad( src, s, '__init__: %s' % norm_text( s ), 'a new timestamp must start with an empty rendering cache, or with the cache of the very object its value is copied from' )
+                    continue
+                if clears and cfg.must_pass( vn, cfg.exit, clears, correlated=False ):
+                    res.ok( src, s, '%s: %s is followed by %s._str = None on every path' % ( f.name, norm_text( s ), X ))
+                else:
+                    res.bad( src, s, '%s: %s without invalidating %s._str' % ( f.name, norm_text( s ), X ),
+                             'the cached rendering still shows the old instant: str() of the changed timestamp, and anything parsed back from it, is a different instant than its value - comparison and rendering disagree' )
+    if n < 5:
+        raise AnalysisError( 'timestamp: stores to .value not found (%d)' % n )
     return res
